@@ -90,6 +90,14 @@ pub(super) fn create_transport_costs(
         return Err("amount of fleet profiles does not match matrix profiles".into());
     }
 
+    // NOTE a name which is not a fleet profile is mapped by position (as an unnamed matrix); mixing such names
+    // with fleet profile names would silently route a fleet profile on a foreign matrix
+    let known_names = matrices.iter().filter_map(|m| m.profile.as_ref()).filter(|name| matrix_profiles.contains_key(*name));
+    let known_names = known_names.count();
+    if known_names != 0 && known_names != matrices.len() {
+        return Err("some matrix profiles are not defined in fleet profiles".into());
+    }
+
     if coord_index.has_custom() {
         create_matrix_transport_cost_with_fallback(matrix_data, UnknownLocationFallback::new(coord_index))
     } else {
